@@ -103,6 +103,7 @@ type Obligation struct {
 	Secs    float64
 	Model   string
 	Output  string
+	ex      *Exec
 }
 
 type Exec struct {
@@ -126,6 +127,7 @@ type Exec struct {
 	frameWrites []string
 	noOverflowAssume bool
 	freshRefs map[*Term]bool
+	firstIter []*Term
 }
 
 type Frame struct {
@@ -206,10 +208,10 @@ func (fr *Frame) oblige(kind, label string, props []string, goal *Term, pos toke
 	}
 	base := ex.fname + "/" + fr.prefix + kind + "/" + label
 	name := ex.oblName(base)
-	if len(props) == 0 && ex.c != nil {
-		props = ex.c.Props
+	if ex.c != nil && (kind == "safe" || kind == "term" || strings.HasPrefix(kind, "loop") && strings.HasPrefix(label, "variant") || len(props) == 0) {
+		props = unionProps(props, ex.c.Props)
 	}
-	o := &Obligation{base: base, pos: pos, Name: name, Func: ex.fname, Kind: kind, Props: props, NFacts: len(ex.facts), Facts: ex.facts, Goal: g, Where: ex.p.srcLine(pos)}
+	o := &Obligation{ex: ex, base: base, pos: pos, Name: name, Func: ex.fname, Kind: kind, Props: props, NFacts: len(ex.facts), Facts: ex.facts, Goal: g, Where: ex.p.srcLine(pos)}
 	ex.obls = append(ex.obls, o)
 	ex.addFact(g)
 }
@@ -309,7 +311,7 @@ func (ex *Exec) typeFacts(v *Term, t types.Type) *Term {
 			}
 		}
 		if u.Kind() == types.String {
-			return And(Le(IntLit(0), App("str.len", SInt, v)), Le(App("str.len", SInt, v), maxLen))
+			return And(Le(IntLit(0), App("gs.len", SInt, v)), Le(App("gs.len", SInt, v), maxLen))
 		}
 	case *types.Slice:
 		l := w.SlLen(v)
@@ -1060,4 +1062,18 @@ func samePtr(a, b *Ptr) bool {
 		}
 	}
 	return true
+}
+
+func unionProps(a, b []string) []string {
+	seen := map[string]bool{}
+	var out []string
+	for _, l := range [][]string{a, b} {
+		for _, x := range l {
+			if !seen[x] {
+				seen[x] = true
+				out = append(out, x)
+			}
+		}
+	}
+	return out
 }
